@@ -623,8 +623,11 @@ pub fn c07_unflushed_answers_at_hangup(rec: &mut Rec, rng: &mut Rng, answered_be
     match leave {
         0 => sim.w.close(rec, a),
         2 => sim.w.shutdown(rec, a, Shutdown::Read),
+        3 => sim.w.shutdown(rec, a, Shutdown::Write),
         _ => sim.w.shutdown(rec, a, Shutdown::Both),
     }
+    // whatever number the server may (wrongly) free now goes to the server's next accept, not to a client socket
+    sim.w.force_reserve = true;
     if flush {
         // the application flushes before the server has seen the hang-up: the write fails INSIDE the flush — the
         // connection is dead, but it still has requests in flight and must be kept until they are answered
@@ -741,7 +744,7 @@ pub fn c07(rec: &mut Rec, rng: &mut Rng, thorough: bool) {
         c07_partial_write_while_others_are_answered(rec, rng, big);
     }
     for answered_before in 0..=2 {
-        for leave in 0..3 {
+        for leave in 0..4 {
             c07_unflushed_answers_at_hangup(rec, rng, answered_before, leave, false);
             if answered_before > 0 {
                 c07_unflushed_answers_at_hangup(rec, rng, answered_before, leave, true);
